@@ -597,7 +597,11 @@ func (c *Client) negotiateVersion(ctx context.Context) error {
 	if err := bi.Err(); err != nil {
 		return err
 	}
-	serverVersions := bi.ResponsePayload.(*payloads.DiscoverVersionsResponsePayload).ProtocolVersion
+	pl, ok := bi.ResponsePayload.(*payloads.DiscoverVersionsResponsePayload)
+	if !ok || pl == nil {
+		return errors.New("Protocol version negotiation failed. Unexpected response payload")
+	}
+	serverVersions := pl.ProtocolVersion
 	if len(serverVersions) == 0 {
 		return errors.New("Protocol version negotiation failed. No common version found")
 	}
